@@ -123,6 +123,10 @@ def run_case(case: Case):
                     replay = case.native(inputs)
                 except Exception:  # noqa: BLE001
                     replay = {"reproduced": None, "error": traceback.format_exc(limit=3)}
+            if replay is None and o.concrete and not inputs:
+                # the obligation was a concrete evaluation of the real code on this tree (no symbolic input involved):
+                # evaluating it IS the native replay
+                replay = {"reproduced": True, "observed": o.info, "note": "concrete evaluation of the real code"}
             failures.append({"obligation": o.name, "inputs": inputs, "replay": replay, "info": o.info,
                              "model": str(o.model)[:2000] if o.model is not None else None})
         obls.append(d)
